@@ -217,209 +217,277 @@ def docOf : Option Tok → String
   | some t => t.text
   | none => ""
 
+/-! ## `VisitFieldDefinition`
+
+Everything `Visit.run` uses is total: the recursion over the nested `FieldDef` is mutual structural
+recursion (`visitFieldDef` / `visitFieldDefs`), every loop is a `List.forM` / `List.foldlM` over a named
+step function.  `FinProtoc/Proofs/VisitSafe.lean` proves that no `throw` below is ever reached
+(`Props/C11.lean`, `visit_no_crash`). -/
+
+/-- is the attribute object a `LengthFieldAttribute`? -/
+def isLenK : Option AttrK → Bool
+  | some (.length _ _) => true
+  | _ => false
+
+/-- `MatchFields[key] = pairs` (entries are kept in the order of their last assignment) -/
+def addMatchField (mfs : List (String × List MPair)) : Option AttrK → List (String × List MPair)
+  | some (.match_ (some k) _ pairs) => (mfs.filter (·.1 ≠ k)) ++ [(k, pairs)]
+  | _ => mfs
+
+/-- object-typed field (`ObjectField`): a MetaData-typed field shares THE attribute of its entry -/
+def visitObj (rep : Option Tok) (ft : Tok) (fn : Option Tok) : V MField := do
+  let s ← get
+  let name := match fn with | some n => n.text | none => ft.text
+  match findMeta s ft.text with
+  | some m => pure { name, attr := m.attr, rep := rep.isSome, line := (rep.getD ft).line }
+  | none => do
+    let a ← newAttr (.object false ft.text .none)
+    pure { name, attr := some a, rep := rep.isSome, line := (rep.getD ft).line }
+
+/-- the type of a length / checksum field declared by name: taken from the MetaData entry when there is one -/
+def metaTypeOf (name : String) (hasTy : Bool) (typ0 : String) (line : Nat) (site : String) : V String := do
+  let s ← get
+  match findMeta s name with
+  | some m => match m.attr.bind (s.attrs[·]?) with
+    | some a => pure (attrGetType a)
+    | none => throw (.nilDeref site)
+  | none => do
+    -- no type written and no MetaData entry to take it from
+    if !hasTy then
+      addDiag line ("Unknown MetaData type " ++ name ++ " for field " ++ name ++ " declared without a type")
+    pure typ0
+
+def visitLen (d : LenDecl) (line : Nat) : V MField := do
+  let name := d.name.text
+  let typ0 := match d.ty with | some t => t.text | none => name
+  let typ ← metaTypeOf name d.ty.isSome typ0 line "VisitLengthFieldDeclaration: MetaData attr"
+  let a ← newAttr (.length typ (some d.attr.from_.text))
+  pure { name, attr := some a, doc := docOf d.doc, line := line }
+
+def visitCks (d : CkDecl) (line : Nat) : V MField := do
+  let name := d.name.text
+  let typ0 := match d.ty with | some t => t.text | none => name
+  let typ ← metaTypeOf name d.ty.isSome typ0 line "VisitCheckSumFieldDeclaration: MetaData attr"
+  let a ← newAttr (.checksum typ d.attr.from_.text)
+  pure { name, attr := some a, doc := docOf d.doc, line := line }
+
+def visitMetaF (rep : Option Tok) (d : MetaDecl) : V MField := do
+  let a ← tyAttr d.ty d.name.text
+  let doc := match d.doc with | some t => String.ofList ((t.text.toList.drop 1).dropLast) | none => ""
+  pure { name := d.name.text, attr := some a, rep := rep.isSome, doc, line := d.ty.start.line }
+
+/-- every key that occurred before is reported at its own line (the pair is kept all the same) -/
+def dupKeyStep (seen : List String) (pr : MPair) : V (List String) := do
+  if seen.contains pr.key then
+    addDiag pr.line ("Duplicate match key: " ++ pr.key)
+    pure seen
+  else pure (pr.key :: seen)
+
+def visitMatch (d : MatchDecl) : V MField := do
+  let _ ← (pairsOfMatch d).foldlM dupKeyStep []
+  let a ← newAttr (.match_ (some d.key.text) false (pairsOfMatch d))
+  pure { name := d.name.text, attr := some a }
+
+/-- inline object, per sub-field: the key of a match field is looked up among the sub-fields -/
+def inerMatchStep (subs : List MField) (f : MField) (line : Nat) : V Unit := do
+  let s ← get
+  match f.attr.bind (s.attrs[·]?), f.attr with
+  | some (.match_ (some k) _ pairs), some ai =>
+    match subs.reverse.find? (·.name = k) with
+    | some kf => modify fun s => { s with attrs := s.attrs.set! ai (.match_ (some k) kf.attr.isSome pairs) }
+    | none => addDiag line ("Unknown key field " ++ k ++ " for match field " ++ f.name)
+  | _, _ => pure ()
+
+/-- inline object, per sub-field: a length field is only allowed in the root packet -/
+def inerLenStep (f : MField) (line : Nat) : V Unit := do
+  let s ← get
+  if isLenK (f.attr.bind (s.attrs[·]?)) then
+    addDiag line "LengthOfField can only be declared in the root packet"
+
+def inerStep (subs : List MField) (x : MField × FieldDef) : V Unit := do
+  inerMatchStep subs x.1 x.2.start.line
+  inerLenStep x.1 x.2.start.line
+
+/-- FieldMap / MatchFields are filled in only when the inline object has a match field -/
+def matchFieldsOf (s : VState) (subs : List MField) : List (String × List MPair) :=
+  subs.foldl (fun (mfs : List (String × List MPair)) f => addMatchField mfs (f.attr.bind (s.attrs[·]?))) []
+
+/-- inline object, after its sub-fields were visited: checks, then the anonymous packet and its attribute -/
+def inerFinish (rep : Option Tok) (name : Tok) (fields : List FieldDef) (subs : List MField) : V MField := do
+  -- match fields and length fields inside the inline object
+  (subs.zip fields).forM (inerStep subs)
+  let s ← get
+  let mfs := matchFieldsOf s subs
+  let fmap := if mfs.isEmpty then [] else (subs.map (·.name)).eraseDups
+  let pid := s.ipackets.size
+  set { s with ipackets := s.ipackets.push { name := name.text, root := false, fields := subs, fieldMap := fmap, matchFields := mfs,
+                                             line := (rep.getD name).line } }
+  let a ← newAttr (.object true name.text (.inline pid))
+  pure { name := name.text, attr := some a, rep := rep.isSome, line := (rep.getD name).line }
+
+mutual
 /-- `VisitFieldDefinition` -/
-partial def visitFieldDef (fd : FieldDef) : V MField :=
-  match fd with
-  | .obj rep ft fn _ _ => do
-    let s ← get
-    let name := match fn with | some n => n.text | none => ft.text
-    match findMeta s ft.text with
-    | some m => pure { name, attr := m.attr, rep := rep.isSome, line := (rep.getD ft).line }
-    | none => do
-      let a ← newAttr (.object false ft.text .none)
-      pure { name, attr := some a, rep := rep.isSome, line := (rep.getD ft).line }
+def visitFieldDef : FieldDef → V MField
+  | .obj rep ft fn _ _ => visitObj rep ft fn
   | .iner rep name _ fields _ _ => do
-    let subs ← fields.mapM visitFieldDef
-    -- match fields and length fields inside the inline object
-    for (f, fd) in subs.zip fields do
-      let s ← get
-      match f.attr.bind (s.attrs[·]?), f.attr with
-      | some (.match_ (some k) _ pairs), some ai =>
-        match subs.reverse.find? (·.name = k) with
-        | some kf => modify fun s => { s with attrs := s.attrs.set! ai (.match_ (some k) kf.attr.isSome pairs) }
-        | none => addDiag fd.start.line ("Unknown key field " ++ k ++ " for match field " ++ f.name)
-      | _, _ => pure ()
-      let s ← get
-      match f.attr.bind (s.attrs[·]?) with
-      | some (.length _ _) => addDiag fd.start.line "LengthOfField can only be declared in the root packet"
-      | _ => pure ()
+    let subs ← visitFieldDefs fields
+    inerFinish rep name fields subs
+  | .len d => visitLen d (FieldDef.len d).start.line
+  | .cks d => visitCks d (FieldDef.cks d).start.line
+  | .metaF rep d => visitMetaF rep d
+  | .match_ d _ => visitMatch d
+/-- the sub-fields of an inline object, in order -/
+def visitFieldDefs : List FieldDef → V (List MField)
+  | [] => pure []
+  | fd :: fds => do
+    let f ← visitFieldDef fd
+    let fs ← visitFieldDefs fds
+    pure (f :: fs)
+end
+
+/-- one attribute of `VisitFieldDefinitionWithAttribute` -/
+def attrStep (fld : MField) (a : Attr) : V MField := do
+  match a with
+  | .calc c => do
+    let t ← fieldGetType (← get) fld.attr "calculatedFrom attribute: f.GetType()"
+    let na ← newAttr (.checksum t c.from_.text)
+    pure { fld with attr := some na }
+  | .len l => do
+    let t ← fieldGetType (← get) fld.attr "lengthOf attribute: f.GetType()"
+    let na ← newAttr (.length t (some l.from_.text))
+    pure { fld with attr := some na }
+  | .pad kw _ ch _ => do
+    let padChar := match ch with | some c => (if c.text = "'\\x00'" then "'\x00'" else c.text) | none => "' '"
     let s ← get
-    -- FieldMap / MatchFields are filled in only when the inline object has a match field
-    let mfs := subs.foldl (fun (mfs : List (String × List MPair)) f =>
-      match f.attr.bind (s.attrs[·]?) with
-      | some (.match_ (some k) _ pairs) => (mfs.filter (·.1 ≠ k)) ++ [(k, pairs)]
-      | _ => mfs) []
-    let fmap := if mfs.isEmpty then [] else (subs.map (·.name)).eraseDups
-    let pid := s.ipackets.size
-    set { s with ipackets := s.ipackets.push { name := name.text, root := false, fields := subs, fieldMap := fmap, matchFields := mfs,
-                                               line := (rep.getD name).line } }
-    let a ← newAttr (.object true name.text (.inline pid))
-    pure { name := name.text, attr := some a, rep := rep.isSome, line := (rep.getD name).line }
-  | .len d => do
-    let s ← get
-    let name := d.name.text
-    let typ0 := match d.ty with | some t => t.text | none => name
-    let typ ← match findMeta s name with
-      | some m => match m.attr.bind (s.attrs[·]?) with
-        | some a => pure (attrGetType a)
-        | none => throw (.nilDeref "VisitLengthFieldDeclaration: MetaData attr")
-      | none => do
-        -- no type written and no MetaData entry to take it from
-        if d.ty.isNone then
-          addDiag fd.start.line ("Unknown MetaData type " ++ name ++ " for field " ++ name ++ " declared without a type")
-        pure typ0
-    let a ← newAttr (.length typ (some d.attr.from_.text))
-    pure { name, attr := some a, doc := docOf d.doc, line := fd.start.line }
-  | .cks d => do
-    let s ← get
-    let name := d.name.text
-    let typ0 := match d.ty with | some t => t.text | none => name
-    let typ ← match findMeta s name with
-      | some m => match m.attr.bind (s.attrs[·]?) with
-        | some a => pure (attrGetType a)
-        | none => throw (.nilDeref "VisitCheckSumFieldDeclaration: MetaData attr")
-      | none => do
-        -- no type written and no MetaData entry to take it from
-        if d.ty.isNone then
-          addDiag fd.start.line ("Unknown MetaData type " ++ name ++ " for field " ++ name ++ " declared without a type")
-        pure typ0
-    let a ← newAttr (.checksum typ d.attr.from_.text)
-    pure { name, attr := some a, doc := docOf d.doc, line := fd.start.line }
-  | .metaF rep d => do
-    let a ← tyAttr d.ty d.name.text
-    let doc := match d.doc with | some t => String.ofList ((t.text.toList.drop 1).dropLast) | none => ""
-    pure { name := d.name.text, attr := some a, rep := rep.isSome, doc, line := d.ty.start.line }
-  | .match_ d _ => do
-    -- every key that occurred before is reported at its own line (the pair is kept all the same)
-    let _ ← (pairsOfMatch d).foldlM (fun (seen : List String) pr => do
-      if seen.contains pr.key then
-        addDiag pr.line ("Duplicate match key: " ++ pr.key)
-        pure seen
-      else pure (pr.key :: seen)) []
-    let a ← newAttr (.match_ (some d.key.text) false (pairsOfMatch d))
-    pure { name := d.name.text, attr := some a }
+    match fld.attr.bind (s.attrs[·]?) with
+    | some (.fixed n _) => do
+      -- the field gets its own copy of the attribute object
+      let p ← newPad { ch := padChar, left := (kw.text.splitOn "left").length > 1 }
+      let na ← newAttr (.fixed n (some p))
+      pure { fld with attr := some na }
+    | _ => do
+      addDiag kw.line ("Padding attribute is only allowed on char[n] fields, not on field " ++ fld.name)
+      pure fld
+  | .tag _ n _ => pure { fld with tag := atoi n.text }
 
 /-- `VisitFieldDefinitionWithAttribute` -/
 def visitFieldWA (f : FieldWA) : V MField := do
   let fld ← visitFieldDef f.fd
-  f.attrs.foldlM (fun (fld : MField) a => do
-    match a with
-    | .calc c => do
-      let t ← fieldGetType (← get) fld.attr "calculatedFrom attribute: f.GetType()"
-      let na ← newAttr (.checksum t c.from_.text)
-      pure { fld with attr := some na }
-    | .len l => do
-      let t ← fieldGetType (← get) fld.attr "lengthOf attribute: f.GetType()"
-      let na ← newAttr (.length t (some l.from_.text))
-      pure { fld with attr := some na }
-    | .pad kw _ ch _ => do
-      let padChar := match ch with | some c => (if c.text = "'\\x00'" then "'\x00'" else c.text) | none => "' '"
-      let s ← get
-      match fld.attr.bind (s.attrs[·]?) with
-      | some (.fixed n _) => do
-        -- the field gets its own copy of the attribute object
-        let p ← newPad { ch := padChar, left := (kw.text.splitOn "left").length > 1 }
-        let na ← newAttr (.fixed n (some p))
-        pure { fld with attr := some na }
-      | _ => do
-        addDiag kw.line ("Padding attribute is only allowed on char[n] fields, not on field " ++ fld.name)
-        pure fld
-    | .tag _ n _ => pure { fld with tag := atoi n.text }) fld
+  f.attrs.foldlM attrStep fld
 
 def setField (fs : List MField) (i : Nat) (f : MField) : List MField := fs.set i f
+
+/-- the Go `lengthField` pointer: the field and, when it is in `fields`, its position -/
+abbrev LenF := Option (MField × Option Nat)
+
+/-- accumulator of the first loop of `VisitPacketDefinition`: fields, their lines, `lengthField`, match fields -/
+abbrev Acc1 := List MField × List Nat × LenF × List (String × List MPair)
+
+/-- first loop of `VisitPacketDefinition`: visit, length-field checks, duplicate check, fields / fieldMap / matchFields -/
+def pktStep1 (isRoot : Bool) (pname : String) (acc : Acc1) (fwa : FieldWA) : V Acc1 := do
+  let (fields, lines, lenF, mfs) := acc
+  let fld ← visitFieldWA fwa
+  let s ← get
+  let isLen := isLenK (fld.attr.bind (s.attrs[·]?))
+  if isLen && !isRoot then
+    addDiag fwa.start.line "LengthOfField can only be declared in the root packet"
+    pure acc
+  else if isLen && lenF.isSome then
+    addDiag fwa.start.line "Duplicate LengthOfField declaration"
+    pure acc
+  else
+    let dup := fields.any (·.name = fld.name)
+    let lenF := if isLen then some (fld, if dup then none else some fields.length) else lenF
+    if dup then
+      addDiag fwa.start.line ("Duplicate field definition for " ++ fld.name ++ " in packet " ++ pname)
+      pure (fields, lines, lenF, mfs)
+    else
+      pure (fields ++ [fld], lines ++ [fwa.start.line], lenF, addMatchField mfs (fld.attr.bind (s.attrs[·]?)))
+
+/-- between the loops: the length field's target must exist (and come after the length field) -/
+def pktLenCheck (fields : List MField) (lines : List Nat) (fieldMap : List String) (lenF : LenF) : V LenF := do
+  match lenF with
+  | some (lf, li) => do
+    let s ← get
+    match lf.attr.bind (s.attrs[·]?) with
+    | some (.length _ (some tname)) =>
+      if fieldMap.contains tname then
+        -- the slot is reserved where the length field stands and patched after the target: the length field comes first
+        match li, fields.findIdx? (·.name = tname) with
+        | some i, some j =>
+          if j ≤ i then do
+            addDiag (lines.getD i 0) ("Field " ++ tname ++ " measured by @lengthOf of field " ++ lf.name ++ " must be declared after it")
+            pure none
+          else pure lenF
+        | _, _ => pure lenF
+      else do
+        addDiag (match li with | some i => lines.getD i 0 | none => 0) ("Unknown field " ++ tname ++ " for @lengthOf of field " ++ lf.name)
+        pure none
+    | _ => pure lenF
+  | none => pure none
+
+/-- the current state of the length field object: the field at its position, or the detached object -/
+def curLenField (fs : List MField) (lf0 : MField) : Option Nat → MField
+  | some j => fs[j]!
+  | none => lf0
+
+/-- second loop, first half: the measured field and the length field get their `LengthOfAttribute`s -/
+def pktStep2Len (lenF : LenF) (fs : List MField) (i : Nat) : V (List MField) := do
+  let f := fs[i]!
+  let s ← get
+  match lenF with
+  | some (lf0, li) =>
+    let lf := curLenField fs lf0 li
+    match lf.attr.bind (s.attrs[·]?) with
+    | some (.length _ tgt) =>
+      match tgt with
+      | none => throw (.nilDeref "lengthField.Attr.TragetField.Name")
+      | some tname =>
+        if f.name = tname then do
+          let lo ← newAttr (.lengthOf lf.name)
+          let fs := match li with | some j => setField fs j { fs[j]! with lenAttr := some lo } | none => fs
+          pure (setField fs i { fs[i]! with lenAttr := lf.attr })
+        else pure fs
+    | _ => throw (.assert "lengthField.Attr.(*LengthFieldAttribute)")
+  | none => pure fs
+
+/-- second loop, second half: object references, the length field's type and target, match keys -/
+def pktStep2Res (fieldMap : List String) (lines : List Nat) (fs : List MField) (i : Nat) : V (List MField) := do
+  let f := fs[i]!
+  let s ← get
+  match f.attr.bind (s.attrs[·]?), f.attr with
+  | some (.object false pkt _), some ai =>
+    let ref := if s.packets.any (·.name = pkt) then RefP.named pkt else RefP.none
+    modify fun s => { s with attrs := s.attrs.set! ai (.object false pkt ref) }
+    pure fs
+  | some (.length _ (some tname)), some _ => do
+    let t ← fieldGetType s f.attr "LengthType: f.GetType()"
+    let tgt := if fieldMap.contains tname then some tname else none
+    let na ← newAttr (.length t tgt)
+    pure (setField fs i { f with attr := some na })
+  | some (.match_ (some k) _ pairs), some ai =>
+    match fs.find? (·.name = k) with
+    | some kf =>
+      modify fun s => { s with attrs := s.attrs.set! ai (.match_ (some k) kf.attr.isSome pairs) }
+      pure fs
+    | none => do
+      addDiag (lines.getD i 0) ("Unknown key field " ++ k ++ " for match field " ++ f.name)
+      pure fs
+  | _, _ => pure fs
+
+/-- second loop of `VisitPacketDefinition`, over the field pointers -/
+def pktStep2 (lenF : LenF) (fieldMap : List String) (lines : List Nat) (fs : List MField) (i : Nat) : V (List MField) := do
+  let fs ← pktStep2Len lenF fs i
+  pktStep2Res fieldMap lines fs i
 
 /-- `VisitPacketDefinition` -/
 def visitPacketDef (p : PacketDef) : V MPacket := do
   let isRoot := p.root.isSome
   let pname := p.name.text
-  -- first loop: visit, length-field checks, duplicate check, fields / fieldMap / matchFields
-  -- `lenF` = the Go `lengthField` pointer: the field and, when it is in `fields`, its position
-  let (fields, lines, lenF, matchFields) ← p.fields.foldlM
-    (fun (acc : List MField × List Nat × Option (MField × Option Nat) × List (String × List MPair)) fwa => do
-      let (fields, lines, lenF, mfs) := acc
-      let fld ← visitFieldWA fwa
-      let s ← get
-      let isLen := match fld.attr.bind (s.attrs[·]?) with | some (.length _ _) => true | _ => false
-      if isLen && !isRoot then
-        addDiag fwa.start.line "LengthOfField can only be declared in the root packet"
-        pure acc
-      else if isLen && lenF.isSome then
-        addDiag fwa.start.line "Duplicate LengthOfField declaration"
-        pure acc
-      else
-        let dup := fields.any (·.name = fld.name)
-        let lenF := if isLen then some (fld, if dup then none else some fields.length) else lenF
-        if dup then
-          addDiag fwa.start.line ("Duplicate field definition for " ++ fld.name ++ " in packet " ++ pname)
-          pure (fields, lines, lenF, mfs)
-        else
-          let mfs := match fld.attr.bind (s.attrs[·]?) with
-            | some (.match_ (some k) _ pairs) => (mfs.filter (·.1 ≠ k)) ++ [(k, pairs)]
-            | _ => mfs
-          pure (fields ++ [fld], lines ++ [fwa.start.line], lenF, mfs))
-    ([], [], none, [])
+  let (fields, lines, lenF, matchFields) ← p.fields.foldlM (pktStep1 isRoot pname) ([], [], none, [])
   let fieldMap := fields.map (·.name)
-  -- the length field's target must exist
-  let lenF ← match lenF with
-    | some (lf, li) => do
-      let s ← get
-      match lf.attr.bind (s.attrs[·]?) with
-      | some (.length _ (some tname)) =>
-        if fieldMap.contains tname then
-          -- the slot is reserved where the length field stands and patched after the target: the length field comes first
-          match li, fields.findIdx? (·.name = tname) with
-          | some i, some j =>
-            if j ≤ i then do
-              addDiag (lines.getD i 0) ("Field " ++ tname ++ " measured by @lengthOf of field " ++ lf.name ++ " must be declared after it")
-              pure none
-            else pure lenF
-          | _, _ => pure lenF
-        else do
-          addDiag (match li with | some i => lines.getD i 0 | none => 0) ("Unknown field " ++ tname ++ " for @lengthOf of field " ++ lf.name)
-          pure none
-      | _ => pure lenF
-    | none => pure none
-  -- second loop, over the field pointers
-  let fieldsArr ← (List.range fields.length).foldlM (fun (fs : List MField) i => do
-    let f := fs[i]!
-    let s ← get
-    let fs ← match lenF with
-      | some (lf0, li) =>
-        -- the current state of the length field object
-        let lf := match li with | some j => fs[j]! | none => lf0
-        match lf.attr.bind (s.attrs[·]?) with
-        | some (.length _ tgt) =>
-          match tgt with
-          | none => throw (.nilDeref "lengthField.Attr.TragetField.Name")
-          | some tname =>
-            if f.name = tname then do
-              let lo ← newAttr (.lengthOf lf.name)
-              let fs := match li with | some j => setField fs j { fs[j]! with lenAttr := some lo } | none => fs
-              pure (setField fs i { fs[i]! with lenAttr := lf.attr })
-            else pure fs
-        | _ => throw (.assert "lengthField.Attr.(*LengthFieldAttribute)")
-      | none => pure fs
-    let f := fs[i]!
-    let s ← get
-    match f.attr.bind (s.attrs[·]?), f.attr with
-    | some (.object false pkt _), some ai =>
-      let ref := if s.packets.any (·.name = pkt) then RefP.named pkt else RefP.none
-      modify fun s => { s with attrs := s.attrs.set! ai (.object false pkt ref) }
-      pure fs
-    | some (.length _ (some tname)), some _ => do
-      let t ← fieldGetType s f.attr "LengthType: f.GetType()"
-      let tgt := if fieldMap.contains tname then some tname else none
-      let na ← newAttr (.length t tgt)
-      pure (setField fs i { f with attr := some na })
-    | some (.match_ (some k) _ pairs), some ai =>
-      match fs.find? (·.name = k) with
-      | some kf =>
-        modify fun s => { s with attrs := s.attrs.set! ai (.match_ (some k) kf.attr.isSome pairs) }
-        pure fs
-      | none => do
-        addDiag (lines.getD i 0) ("Unknown key field " ++ k ++ " for match field " ++ f.name)
-        pure fs
-    | _, _ => pure fs) fields
+  let lenF ← pktLenCheck fields lines fieldMap lenF
+  let fieldsArr ← (List.range fields.length).foldlM (pktStep2 lenF fieldMap lines) fields
   pure { name := pname, root := isRoot, lengthField := lenF.map fun (lf, _) => lf.name,
          fields := fieldsArr, fieldMap := fieldMap, matchFields := matchFields, line := p.start.line }
 
@@ -435,9 +503,22 @@ def addPacketS (p : MPacket) (s : VState) : VState :=
 
 def addPacket (p : MPacket) : V Unit := modify (addPacketS p)
 
-/-- `resolveFields`: packet references (inline objects included) and match targets -/
-partial def resolveFields (fields : List MField) : V Unit := do
-  for f in fields do
+/-- match targets of one match field -/
+def matchTargetStep (f : MField) (pr : MPair) : V Unit := do
+  let s ← get
+  if !(s.packets.any (·.name = pr.value)) then
+    addDiag pr.line ("Unknown packet type " ++ pr.value ++ " for match key " ++ pr.key ++ " of field " ++ f.name)
+
+/-- `resolveFields`, one field: packet references (inline objects included) and match targets.
+
+The Go function recurses through the anonymous packet of an inline object.  Here that descent is
+structural recursion on `fuel`; running out of fuel is an honest `throw .stack`, and
+`Proofs/VisitSafe.lean` (`resolveField_safe`) proves that it is never reached when the fuel is the number of
+anonymous packets: an anonymous packet only refers to anonymous packets registered BEFORE it (its sub-objects
+are pushed first), so every descent goes to a strictly smaller `pid`.  The result is therefore the same as
+that of the unbounded recursion on every input. -/
+def resolveField : Nat → MField → V Unit
+  | fuel, f => do
     let s ← get
     match f.attr.bind (s.attrs[·]?), f.attr with
     | some (.object iner pkt .none), some ai =>
@@ -446,14 +527,16 @@ partial def resolveFields (fields : List MField) : V Unit := do
       else addDiag f.line ("Unknown packet type " ++ pkt ++ " for field " ++ f.name)
     | some (.object true _ (.inline pid)), _ =>
       match s.ipackets[pid]? with
-      | some ip => resolveFields ip.fields
+      | some ip =>
+        match fuel with
+        | 0 => throw .stack
+        | fuel + 1 => ip.fields.forM (resolveField fuel)
       | none => pure ()
-    | some (.match_ _ _ pairs), _ =>
-      for pr in pairs do
-        let s ← get
-        if !(s.packets.any (·.name = pr.value)) then
-          addDiag pr.line ("Unknown packet type " ++ pr.value ++ " for match key " ++ pr.key ++ " of field " ++ f.name)
+    | some (.match_ _ _ pairs), _ => pairs.forM (matchTargetStep f)
     | _, _ => pure ()
+
+/-- `resolveFields` -/
+def resolveFields (fuel : Nat) (fields : List MField) : V Unit := fields.forM (resolveField fuel)
 
 /-- `checkRecursion`: depth-first search over packet references; the first back edge is reported -/
 structure RecSt where
@@ -461,32 +544,48 @@ structure RecSt where
   black : List String := []
   report : Option (Nat × String) := none
 
-partial def recVisit (s : VState) (pname : String) (fields : List MField) (st : RecSt) : RecSt :=
-  fields.foldl (fun st f =>
-    let (st, next) : RecSt × List String := match f.attr.bind (s.attrs[·]?) with
-      | some (.object true _ (.inline pid)) =>
-        (match s.ipackets[pid]? with | some ip => recVisit s pname ip.fields st | none => st, [])
-      | some (.object false _ (.named q)) => (st, [q])
-      | some (.match_ _ _ pairs) => (st, (pairs.map (·.value)).filter fun q => s.packets.any (·.name = q))
-      | _ => (st, [])
-    next.foldl (fun st q =>
-      if st.black.contains q then st
-      else if st.grey.contains q then
-        (if st.report.isSome then st else
-          { st with report := some (f.line, "Recursive packet reference: field " ++ f.name ++ " of packet " ++ pname ++ " leads back to packet " ++ q) })
-      else
-        match s.packets.find? (·.name = q) with
-        | some qp =>
-          let st := recVisit s q qp.fields { st with grey := q :: st.grey }
-          { st with black := q :: st.black }
-        | none => st) st) st
+/-- the DFS of `checkRecursion`, total: structural recursion on `fuel` (one unit per call).
+
+A descent goes either into the anonymous packet of an inline object or into a named packet that is neither
+grey nor black and is made grey first.  `grey` never shrinks, so along one chain of calls the named packets are
+pairwise distinct (at most `packets.length` of them, the starting packet included), and between two of them
+the inline descents go to strictly smaller `pid`s (at most `ipackets.size`; an anonymous packet only holds
+anonymous packets registered before it, `Inv.ipkOK` in `Proofs/VisitSafe.lean`).  A chain is therefore
+shorter than `recFuel s`, the `0` case is never reached from `checkRecursion`, and the result is that of the
+unbounded recursion.  (This bound is argued here, not proved in Lean; `visit_no_crash` does not depend on it:
+`checkRecursion` cannot throw whatever `recVisit` returns.  The differential `model` op compares the reported
+back edge with the real code's on every run.) -/
+def recVisit (s : VState) : Nat → String → List MField → RecSt → RecSt
+  | 0, _, _, st => st
+  | fuel + 1, pname, fields, st =>
+    fields.foldl (fun st f =>
+      let (st, next) : RecSt × List String := match f.attr.bind (s.attrs[·]?) with
+        | some (.object true _ (.inline pid)) =>
+          (match s.ipackets[pid]? with | some ip => recVisit s fuel pname ip.fields st | none => st, [])
+        | some (.object false _ (.named q)) => (st, [q])
+        | some (.match_ _ _ pairs) => (st, (pairs.map (·.value)).filter fun q => s.packets.any (·.name = q))
+        | _ => (st, [])
+      next.foldl (fun st q =>
+        if st.black.contains q then st
+        else if st.grey.contains q then
+          (if st.report.isSome then st else
+            { st with report := some (f.line, "Recursive packet reference: field " ++ f.name ++ " of packet " ++ pname ++ " leads back to packet " ++ q) })
+        else
+          match s.packets.find? (·.name = q) with
+          | some qp =>
+            let st := recVisit s fuel q qp.fields { st with grey := q :: st.grey }
+            { st with black := q :: st.black }
+          | none => st) st) st
+
+/-- more than the longest possible chain of `recVisit` calls -/
+def recFuel (s : VState) : Nat := (s.packets.length + 1) * (s.ipackets.size + 1) + 1
 
 def checkRecursion : V Unit := do
   let s ← get
   let st := s.packets.foldl (fun (st : RecSt) p =>
     if st.black.contains p.name || st.grey.contains p.name then st
     else
-      let st := recVisit s p.name p.fields { st with grey := p.name :: st.grey }
+      let st := recVisit s (recFuel s) p.name p.fields { st with grey := p.name :: st.grey }
       { st with black := p.name :: st.black }) {}
   match st.report with
   | some (line, msg) => addDiag line msg
@@ -495,47 +594,52 @@ def checkRecursion : V Unit := do
 /-- `ResolveDependencies` -/
 def resolveDeps : V Unit := do
   let s ← get
-  for p in s.packets do
-    resolveFields p.fields
+  s.packets.forM (fun p => resolveFields s.ipackets.size p.fields)
   checkRecursion
 
-/-- `VisitPacket` -/
+/-- one MetaData entry -/
+def metaEntryStep (e : MetaEntry) : V Unit := do
+  match e with
+  | .decl d =>
+    let a ← tyAttr d.ty d.name.text
+    addMeta { name := d.name.text, attr := some a, desc := docOf d.doc, line := d.ty.start.line }
+  | .ref r =>
+    let s ← get
+    let attr := (findMeta s r.typ.text).bind (·.attr)
+    if (findMeta s r.typ.text).isNone then
+      addDiag r.typ.line ("Unknown MetaData type " ++ r.typ.text ++ " for " ++ r.name.text)
+    -- a reference to an undeclared entry has no type: it is diagnosed and not registered
+    if attr.isSome then
+      addMeta { name := r.name.text, attr, desc := docOf r.doc, line := r.typ.line }
+
+def metaStep (d : TopDef) : V Unit :=
+  match d with
+  | .metaD m => m.entries.forM metaEntryStep
+  | _ => pure ()
+
+def optDeclStep (od : OptDecl) : V Unit :=
+  let value := match od.value with
+    | .tok t => if t.kind = .string then trimQuotes t.text else t.text
+    | .ty t => t.text
+  addOption od.name.text value od.name.line
+
+def optStep (d : TopDef) : V Unit :=
+  match d with
+  | .opt o => o.decls.forM optDeclStep
+  | _ => pure ()
+
+def packetStep (d : TopDef) : V Unit :=
+  match d with
+  | .packet p => do
+    let mp ← visitPacketDef p
+    addPacket mp
+  | _ => pure ()
+
+/-- `VisitPacket`: MetaData first, then options, then packets, then `ResolveDependencies` -/
 def visitCst (c : Cst) : V Unit := do
-  -- MetaData
-  for d in c.defs do
-    match d with
-    | .metaD m =>
-      for e in m.entries do
-        match e with
-        | .decl d =>
-          let a ← tyAttr d.ty d.name.text
-          addMeta { name := d.name.text, attr := some a, desc := docOf d.doc, line := d.ty.start.line }
-        | .ref r =>
-          let s ← get
-          let attr := (findMeta s r.typ.text).bind (·.attr)
-          if (findMeta s r.typ.text).isNone then
-            addDiag r.typ.line ("Unknown MetaData type " ++ r.typ.text ++ " for " ++ r.name.text)
-          -- a reference to an undeclared entry has no type: it is diagnosed and not registered
-          if attr.isSome then
-            addMeta { name := r.name.text, attr, desc := docOf r.doc, line := r.typ.line }
-    | _ => pure ()
-  -- options
-  for d in c.defs do
-    match d with
-    | .opt o =>
-      for od in o.decls do
-        let value := match od.value with
-          | .tok t => if t.kind = .string then trimQuotes t.text else t.text
-          | .ty t => t.text
-        addOption od.name.text value od.name.line
-    | _ => pure ()
-  -- packets
-  for d in c.defs do
-    match d with
-    | .packet p => do
-      let mp ← visitPacketDef p
-      addPacket mp
-    | _ => pure ()
+  c.defs.forM metaStep
+  c.defs.forM optStep
+  c.defs.forM packetStep
   resolveDeps
 
 def run (c : Cst) : Except Crash VState := (visitCst c).run {} |>.map (·.2)
